@@ -135,6 +135,7 @@ func checkCmd(args []string) int {
 			inconclusive = append(inconclusive, "missing harness "+r.Pkg+"."+r.Func)
 			continue
 		}
+		reachedByRun := map[string]bool{}
 		for _, as := range argsets {
 			P.Unwind = 64
 			if r.Unwind > 0 {
@@ -169,9 +170,9 @@ func checkCmd(args []string) int {
 			if rep.Completed == 0 {
 				inconclusive = append(inconclusive, rep.Harness+": VACUOUS no path completed")
 			}
-			for _, l := range r.Labels {
-				if st := rep.Labels[l]; st == nil || st.Reached == 0 {
-					inconclusive = append(inconclusive, fmt.Sprintf("%s: VACUOUS label %s never evaluated", rep.Harness, l))
+			for l, st := range rep.Labels {
+				if st.Reached > 0 {
+					reachedByRun[l] = true
 				}
 			}
 			seen := map[string]int{}
@@ -185,6 +186,11 @@ func checkCmd(args []string) int {
 			}
 			for _, w := range rep.Witnesses {
 				witnesses = append(witnesses, replayEntry{Harness: r.Func, Pkg: r.Pkg, Args: as, Values: w.Values, Obs: w.Observations})
+			}
+		}
+		for _, l := range r.Labels {
+			if !reachedByRun[l] {
+				inconclusive = append(inconclusive, fmt.Sprintf("%s.%s: VACUOUS label %s never evaluated", filepath.Base(r.Pkg), r.Func, l))
 			}
 		}
 	}
